@@ -149,8 +149,11 @@ PROPS["C15"] = {
              "key, with a Go re-implementation of carbon 0.9.x ConsistentHashRing which is itself cross-checked on every case against a direct "
              "transcription run by CPython (pyhelpers/carbon_ring.py); the permuted listing must agree too. route_assign_churn: a real "
              "ConsistentHashing route with real destinations on refusing loopback addresses; which destination's drop counter moves identifies "
-             "the receiver of each line (exactly one), compared with the reference; then add/remove through (*ConsistentHashing).Add / "
-             "DelDestination: after add only keys landing on the new node moved, after remove only keys the removed node owned. Non-trivial: "
+             "the receiver of each line (exactly one), compared with the reference; then 1-4 membership changes through (*ConsistentHashing).Add / "
+             "DelDestination / UpdateDestination(addr=...) (the last re-points a destination to a listening loopback endpoint with a fresh "
+             "instance, as modDest does; a connected destination is observed at its endpoint): after every change the assignment must again equal "
+             "the reference ring of the destinations now configured; after add only keys landing on the new node moved, after remove only keys the "
+             "removed node owned, after re-pointing only keys of the old or the new node. Non-trivial: "
              "ring with >=1 collision and a key on a collided position or wrapping (churn: >=2 nodes and >=1 key moved). Distinct = hash(nodes, keys)."),
     "level_text": "Differential property testing against an independent re-implementation of Carbon's ring (cross-checked with CPython) plus metamorphic relations (order independence, minimal disruption); holds on all generated rings/keys.",
     "level_note": "Carbon 0.9.x ring (no collision bumping); the >=1.0 variant is order-dependent and cannot be what 'in any order' means. DNS-like hosts are only exercised at hasher level (no resolver offline); the route-level check uses loopback literals.",
